@@ -110,14 +110,16 @@ PLAN = {
     "C18": dict(
         rule=("each case runs in a forked child on the ASan build with GMP routed through malloc: (hist) edit/solve/copy/load-basis "
               "histories as in C05 incl. infeasible, unbounded and iteration-limited outcomes and the solve-from-scratch twin, (bad) "
-              "every invalid-call probe of C07; then every problem, basis, array is freed, QSexactClear() is called, the stack is "
+              "every invalid-call probe of C07, (file) LP/MPS text from the independent emitters truncated, poisoned or cut at a token boundary "
+              "chosen by the tape and read with or without an error collector (accepted files are also written and solved briefly); then every problem, basis, array is freed, QSexactClear() is called, the stack is "
               "scrubbed and __lsan_do_recoverable_leak_check() must report nothing. Signature = the two innermost library frames "
               "of the first leak. Non-trivial = history with a non-OPTIMAL solve or a failing call; distinct = distinct case text / "
               "probe cell."),
         technique="PBT with per-case LeakSanitizer oracle after full teardown",
         min_nontrivial=dict(quick=300, thorough=3000),
         runs=[dict(variant="hist", flavour="asan", quick=dict(cases=3000, size=100, shards=10, budget=40), thorough=dict(cases=100000, size=150, shards=12, budget=900)),
-              dict(variant="bad", flavour="asan", quick=dict(cases=6000, size=60, shards=6, budget=40), thorough=dict(cases=60000, size=100, shards=4, budget=600))],
+              dict(variant="bad", flavour="asan", quick=dict(cases=4000, size=60, shards=3, budget=40), thorough=dict(cases=60000, size=100, shards=4, budget=600)),
+              dict(variant="file", flavour="asan", quick=dict(cases=6000, size=80, shards=3, budget=40), thorough=dict(cases=200000, size=120, shards=6, budget=900))],
     ),
     "C20": dict(
         rule=("a log handler is installed, stdout and stderr of the child are replaced by two memfds, then a history runs: valid "
